@@ -8,14 +8,13 @@
 //! tmpl    := "T" nlayout {item} nblocks { bname nitems {item} }
 //! item    := "t" text | "b" n | "s" | "x" exec(0/1) mode(s/d/c) t | "i" ign k names..
 //!          | "v" v | "set" v str | "mac" v str | "imp" t v | "from" t name alias
-//!          | "attr" v a | "keys" v | "call" v
+//!          | "attr" v a | "keys" v | "call" v | "req" | "ssuper" v | "sself" v m | "self" m
 //!          | "for" v k strs.. nitems items.. | "inmac" m arg str nitems items..
 //!
 //! Result: `ok:<output>` | `err:<kind chain>` | `panic` | `hang` | `crash:<status>` | `syntax:<kind>`
 //! | `skipped` (after three hangs the remaining cases are not run).
-//! The kind chain is `K1>K2>…` (outermost first); chains longer than 24 (recursion limit hit by a
-//! cycle; where exactly the limit strikes is not part of the comparison) are printed as the first
-//! 12 kinds, `...`, and the innermost kind.
+//! The kind chain is `K1>K2>…` (outermost first), compared exactly: the model accounts for the
+//! recursion limit (frames + include/macro costs) like the engine does.
 //!
 //! usage: c06 gen <quick|thorough>    — supervisor: runs the cases in child processes (a hang or
 //!                                       a stack overflow of the engine kills only the child)
@@ -42,6 +41,10 @@ enum Item {
     EmitAttr(usize, usize),
     EmitKeys(usize),
     CallVar(usize),
+    Required,
+    SetSuper(usize),
+    SetSelf(usize, usize),
+    SelfCall(usize),
     Loop(usize, Vec<String>, Vec<Item>),
     InMacro(usize, usize, String, Vec<Item>),
 }
@@ -130,6 +133,20 @@ fn ser_item(it: &Item, out: &mut Vec<String>) {
             out.push("call".into());
             out.push(v.to_string());
         }
+        Required => out.push("req".into()),
+        SetSuper(v) => {
+            out.push("ssuper".into());
+            out.push(v.to_string());
+        }
+        SetSelf(v, m) => {
+            out.push("sself".into());
+            out.push(v.to_string());
+            out.push(m.to_string());
+        }
+        SelfCall(m) => {
+            out.push("self".into());
+            out.push(m.to_string());
+        }
         Loop(v, vals, body) => {
             out.push("for".into());
             out.push(v.to_string());
@@ -202,6 +219,10 @@ impl<'a> Toks<'a> {
             "attr" => EmitAttr(self.num()?, self.num()?),
             "keys" => EmitKeys(self.num()?),
             "call" => CallVar(self.num()?),
+            "req" => Required,
+            "ssuper" => SetSuper(self.num()?),
+            "sself" => SetSelf(self.num()?, self.num()?),
+            "self" => SelfCall(self.num()?),
             "for" => {
                 let v = self.num()?;
                 let k = self.num()?;
@@ -242,11 +263,19 @@ fn print_items(t: &Tmpl, items: &[Item], used: &mut Vec<usize>, out: &mut String
             Text(s) => out.push_str(s),
             CallBlock(n) => {
                 used.push(*n);
-                out.push_str(&format!("{{% block b{n} %}}"));
                 let body = t.blocks.get(n).expect("block body in table");
-                print_items(t, body, used, out);
-                out.push_str("{% endblock %}");
+                if matches!(body.as_slice(), [Required]) {
+                    out.push_str(&format!("{{% block b{n} required %}}{{% endblock %}}"));
+                } else {
+                    out.push_str(&format!("{{% block b{n} %}}"));
+                    print_items(t, body, used, out);
+                    out.push_str("{% endblock %}");
+                }
             }
+            Required => panic!("`required` only as the whole body of a block"),
+            SetSuper(v) => out.push_str(&format!("{{% set v{v} = super() %}}")),
+            SetSelf(v, m) => out.push_str(&format!("{{% set v{v} = self.b{m}() %}}")),
+            SelfCall(m) => out.push_str(&format!("{{{{ self.b{m}() }}}}")),
             Super => out.push_str("{{ super() }}"),
             Extends { exec, mode, t } => match mode {
                 's' => out.push_str(&format!("{{% extends \"t{t}\" %}}")),
@@ -309,11 +338,7 @@ fn kind_chain(e: &Error) -> String {
         }
         cur = s;
     }
-    if v.len() > 24 {
-        format!("{}>...>{}", v[..12].join(">"), v[v.len() - 1])
-    } else {
-        v.join(">")
-    }
+    v.join(">")
 }
 
 fn innermost_detail(e: &Error) -> String {
@@ -383,12 +408,22 @@ enum Asg {
     Plain,
     SuperBefore,
     SuperAfter,
+    /// `{% set v5 = super() %}` … `{{ v5 }}`: super() in value position (captured)
+    SuperCaptured,
+    /// `{% block n required %}{% endblock %}`
+    Required,
 }
 const ASGS: [Asg; 4] = [Asg::Absent, Asg::Plain, Asg::SuperBefore, Asg::SuperAfter];
 
 /// body of block `n` of chain template `j`
 fn block_body(j: usize, n: usize, a: Asg, nested: Option<usize>) -> Vec<Item> {
+    if a == Asg::Required {
+        return vec![Required];
+    }
     let mut b = vec![];
+    if a == Asg::SuperCaptured {
+        b.push(SetSuper(5));
+    }
     if a == Asg::SuperBefore {
         b.push(Super);
     }
@@ -400,6 +435,11 @@ fn block_body(j: usize, n: usize, a: Asg, nested: Option<usize>) -> Vec<Item> {
     if a == Asg::SuperAfter {
         b.push(Super);
     }
+    if a == Asg::SuperCaptured {
+        b.push(Text("(".into()));
+        b.push(EmitVar(5));
+        b.push(Text(")".into()));
+    }
     b
 }
 
@@ -408,7 +448,7 @@ fn block_body(j: usize, n: usize, a: Asg, nested: Option<usize>) -> Vec<Item> {
 /// before the extends tag
 fn chain_template(j: usize, len: usize, asg: [Asg; 3], nest: bool, mode: (char, bool), pre_block: bool) -> Tmpl {
     let mut t = Tmpl::default();
-    let nested = nest && asg[0] != Asg::Absent && asg[1] != Asg::Absent;
+    let nested = nest && asg[0] != Asg::Absent && asg[0] != Asg::Required && asg[1] != Asg::Absent;
     for n in 0..3 {
         if asg[n] != Asg::Absent {
             let inner = if n == 0 && nested { Some(1) } else { None };
@@ -508,7 +548,7 @@ fn aux_templates(len: usize) -> Vec<Tmpl> {
 }
 
 /// a snippet of items exercising include/import (index into a fixed menu)
-const N_SNIPPETS: usize = 27;
+const N_SNIPPETS: usize = 30;
 fn snippet(k: usize, len: usize) -> Vec<Item> {
     let a = |x: usize| len + x;
     let miss = len + AUX_N;
@@ -539,6 +579,9 @@ fn snippet(k: usize, len: usize) -> Vec<Item> {
         23 => vec![FromImport(a(AUX_E), 2, 7), EmitVar(7)],
         24 => vec![ImportAs(a(AUX_E), 8), EmitAttr(8, 2)],
         25 => vec![Incl { names: vec![a(AUX_E)], ign: true }],
+        26 => vec![SelfCall(2)],
+        27 => vec![SetSelf(5, 1), Text("(".into()), EmitVar(5), Text(")".into())],
+        28 => vec![SelfCall(0)],
         _ => vec![Incl { names: vec![a(AUX_Q)], ign: false }, Incl { names: vec![a(AUX_X)], ign: false }],
     }
 }
@@ -582,8 +625,16 @@ fn random_chain(rng: &mut Rng, extras: bool) -> Case {
     for _ in 0..len {
         let mut a = [Asg::Absent; 3];
         for (n, x) in a.iter_mut().enumerate() {
-            *x = if rng.chance(1, 4) { Asg::Absent } else { ASGS[1 + rng.below(3) as usize] };
-            if matches!(*x, Asg::SuperBefore | Asg::SuperAfter) && !defined_above[n] && !rng.chance(1, 12) {
+            *x = if rng.chance(1, 4) {
+                Asg::Absent
+            } else {
+                match rng.below(20) {
+                    0..=1 => Asg::SuperCaptured,
+                    2 => Asg::Required,
+                    k => ASGS[1 + (k % 3) as usize],
+                }
+            };
+            if matches!(*x, Asg::SuperBefore | Asg::SuperAfter | Asg::SuperCaptured) && !defined_above[n] && !rng.chance(1, 12) {
                 *x = Asg::Plain;
             }
         }
@@ -620,7 +671,12 @@ fn random_chain(rng: &mut Rng, extras: bool) -> Case {
             let items = wrap(w, snippet(k, len));
             let j = rng.below(len as u64) as usize;
             let t = &mut tmpls[j];
-            let keys: Vec<usize> = t.blocks.keys().copied().collect();
+            let keys: Vec<usize> = t
+                .blocks
+                .iter()
+                .filter(|(_, b)| !matches!(b.as_slice(), [Required]))
+                .map(|(k, _)| *k)
+                .collect();
             if !keys.is_empty() && rng.chance(1, 2) {
                 let n = *rng.pick(&keys);
                 let body = t.blocks.get_mut(&n).unwrap();
@@ -632,7 +688,43 @@ fn random_chain(rng: &mut Rng, extras: bool) -> Case {
             }
         }
     }
+    prune_unreferenced(&mut tmpls);
     Case { fam, tmpls }
+}
+
+fn refs(items: &[Item], out: &mut Vec<usize>) {
+    for it in items {
+        match it {
+            Extends { t, .. } => out.push(*t),
+            Incl { names, .. } => out.extend(names.iter().copied()),
+            ImportAs(t, _) | FromImport(t, _, _) => out.push(*t),
+            Loop(_, _, b) | InMacro(_, _, _, b) => refs(b, out),
+            _ => {}
+        }
+    }
+}
+
+/// templates that cannot be reached from t0 become empty stubs (the names keep their indexes)
+fn prune_unreferenced(tmpls: &mut [Tmpl]) {
+    let mut seen = vec![false; tmpls.len()];
+    let mut todo = vec![0usize];
+    while let Some(i) = todo.pop() {
+        if i >= tmpls.len() || seen[i] {
+            continue;
+        }
+        seen[i] = true;
+        let mut r = vec![];
+        refs(&tmpls[i].layout, &mut r);
+        for b in tmpls[i].blocks.values() {
+            refs(b, &mut r);
+        }
+        todo.extend(r);
+    }
+    for (i, t) in tmpls.iter_mut().enumerate() {
+        if !seen[i] {
+            *t = Tmpl::default();
+        }
+    }
 }
 
 fn all_small(out: &mut Vec<Case>, thorough: bool) {
